@@ -184,7 +184,7 @@ impl Gen {
     fn inject_uam(&mut self, depth: usize) {
         let z = self.fresh("zq");
         let live: Vec<usize> = self.consumable();
-        let kind = self.irng.below(8);
+        let kind = self.irng.below(10);
         let t = *self.irng.pick(&NONCOPY);
         let c = {
             let mut g = Gen::scratch(self.irng.next());
@@ -247,6 +247,34 @@ impl Gen {
                     self.line(depth, &format!("acc = mix(acc, {});", eat(t, &r)));
                     self.line(depth, &format!("acc = mix(acc, {});", eat(t, &z)));
                     what = format!("{} moved into a generic call, then used", ty_name(t));
+                }
+                8 => {
+                    // the same variable twice in one input list
+                    let r = self.fresh("zr");
+                    self.line(depth, &format!("let {r} = ({z}, {z});"));
+                    self.line(depth, &format!("let (_za, _zb) = {r};"));
+                    self.line(depth, &format!("acc = mix(acc, {});", eat(t, "_za")));
+                    self.line(depth, &format!("acc = mix(acc, {});", eat(t, "_zb")));
+                    what = format!("{} twice in one tuple", ty_name(t));
+                }
+                9 => {
+                    // one source remapped to two destinations at a merge
+                    let (a, b) = (self.fresh("za"), self.fresh("zb"));
+                    let c2 = { let mut g = Gen::scratch(self.irng.next()); g.ctor(if needs_arr { Ty::D } else { t }) };
+                    let t2 = if needs_arr { Ty::D } else { t };
+                    if needs_arr {
+                        self.line(depth, &format!("let {z}d = D {{ a: 1, b: 1 }};"));
+                        self.line(depth, &format!("let mut {a} = {z}d;"));
+                        self.line(depth, &format!("let mut {b} = {z}d;"));
+                        self.line(depth, &format!("acc = mix(acc, eat_arr({z}));"));
+                    } else {
+                        self.line(depth, &format!("let mut {a} = {z};"));
+                        self.line(depth, &format!("let mut {b} = {z};"));
+                    }
+                    self.line(depth, &format!("if nz(acc) {{ {a} = {c2}; {b} = {c2}; }}"));
+                    self.line(depth, &format!("acc = mix(acc, {});", eat(t2, &b)));
+                    self.line(depth, &format!("acc = mix(acc, {});", eat(t2, &a)));
+                    what = format!("{} moved into two mutable variables that are merged", ty_name(t2));
                 }
                 _ => {
                     let r = self.fresh("zr");
